@@ -200,13 +200,15 @@ prop(
     theorems=["C06_tiers_ok", "C06_markers_disjoint", "C06_slot_roundtrip", "C06_chain_roundtrip_multipart",
               "C06_chain_roundtrip_single", "C06_select_tier_fits", "C06_multipart_needs_two_parts"],
     counts={"quick": 1600, "thorough": 80000, "search": 8000},
-    rule="two case families: (insert) one Set of a value whose length is drawn from {0, 1, capacity of a random tier -1/0/+1, the single/multi-part boundary +-2, "
+    rule="three case families: (compressed, 1 in 8) one Set into a column compressed with lz4 or snappy (threshold 0 / 64 / 4096) of a value whose length is a tier boundary, 32000-34000, 34000-220000, "
+         "1-200 or 200-32000 and whose content is constant, periodic, random-head-constant-tail, low-entropy or random; read back bit-exact while queued, after the drain and after a reopen, get_size checked, and the "
+         "tier of the table file that received the entry is compared with the model's tier for the STORED length (read from the raw slot header); (insert) one Set of a value whose length is drawn from {0, 1, capacity of a random tier -1/0/+1, the single/multi-part boundary +-2, "
          "around multiples of the multipart payload, 32000-90000, 2-5000} into a fresh plain or counted hash column, drained; the RAW table file (header slot and "
          "every chain slot, every byte) is compared with the image the model builds, and the value is re-read after a reopen; (sequence) 4-24 sets / overwrites / "
          "removals over 2-6 keys with lengths from the same classes (values move between tiers and between single and chained storage), drained every third step; "
          "every value is read back bit-exact and the number of live slots per tier, computed from the raw files as fill mark - header - free-list length (walking the "
          "tombstone list), is compared with the model. Distinct = distinct (family, counted, length | length sequence)",
-    assumptions=["compression is exercised observationally by the C01 histories (lz4 / snappy, thresholds 0 / 4096 / max): this check uses uncompressed columns so that raw bytes are predictable",
+    assumptions=["the compressors themselves (lz4, snap crates) are not modelled: their output is observed through bit-exact read-back, and only the length of what they produced enters the model (tier choice); the byte-exact family uses uncompressed columns so that raw bytes are predictable",
                  "btree columns store values through the same table code with an empty key tail (covered by C04's histories)"],
     explanation="slot forms, byte codec, chain writer/reader and tier choice modelled with the constants regenerated from table.rs/column.rs; round trips proved for every length",
 )
